@@ -269,6 +269,30 @@ def _meta_check(scen):
     if cov is not None and not (np.all(b0[cov] == -99.0)
                                 and np.all(r0[cov] == -99.0)):
         return 'fill_value not used on coverage pixels'
+    # non-finite pixels (NaN, +-inf) are excluded like masked ones
+    if scen['shift'] == 0.0 and scen['scale'] == 1.0:
+        dn = data.copy()
+        dn[8, 9] = np.nan
+        dn[12, 4] = np.inf
+        dn[2, 15] = -np.inf
+        mk = mask.copy()
+        mk[8, 9] = mk[12, 4] = mk[2, 15] = True
+        bn, rn, _ = run(dn)
+        with warnings.catch_warnings():
+            warnings.simplefilter('ignore')
+            bm = Background2D(data, scen['box'], mask=mk, coverage_mask=cov,
+                              fill_value=-99.0, bkg_estimator=est,
+                              bkgrms_estimator=StdBackgroundRMS(),
+                              sigma_clip=SigmaClip(3.0), interpolator=interp,
+                              exclude_percentile=30.0)
+            bmb, bmr = np.array(bm.background), np.array(bm.background_rms)
+        if not (np.all(np.isfinite(bn[keep])) and np.all(np.isfinite(
+                rn[keep]))):
+            return 'non-finite map for data with NaN / inf pixels'
+        if not (np.allclose(bn[keep], bmb[keep], rtol=1e-12)
+                and np.allclose(rn[keep], bmr[keep], rtol=1e-12)):
+            return ('NaN / +-inf pixels are not treated like masked pixels '
+                    f'(max diff {np.max(np.abs(bn[keep] - bmb[keep])):.3g})')
     # mask-blindness: values stored in masked / coverage pixels are irrelevant
     d2 = data.copy()
     d2[mask] = 1e4
